@@ -599,8 +599,14 @@ func TestCheck(t *testing.T) {
 				}()
 			}
 			wg.Wait()
+			// SetCacheSize concurrently with lookups
+			for j := 0; j < nRace/2; j++ {
+				e.resizeCase("race", j, r.Rand("resize-case", j))
+			}
 		})
 		if !r.Replaying() {
+			r.Floor("resize_lookups", int64(nRace)*6)
+			r.Floor("resize_setcachesize_calls", int64(nRace)*4)
 			r.Floor("conc_cases", int64(nRace))
 			r.Floor("conc_calls", int64(nRace)*40)
 			r.Floor("conc_calls_overlapping_same_name", int64(nRace)*20)
